@@ -381,6 +381,22 @@ def _module_state(W):
     return out
 
 
+def _switch_upd(np, R, at, f2, g2):
+    """update_fun_def that, at its call number `at`, switches run R to a second objective (f2, g2) and rewrites the
+    stored gradients at the stored points (functional: two runs given the same oracles do the same)."""
+    from collections import deque
+
+    def upd(x, f0, f0_old, grad, X, G):
+        i = len(R.upd_calls)
+        R.upd_calls.append(dict(x=list(x.data), nX=len(X)))
+        if i != at:
+            return f0, f0_old, grad, G
+        R.fu, R.gu = f2, g2
+        newG = deque(np.array(list(g2(list(xx.data)))) for xx in X)
+        return f2(list(x.data))[0], f0_old, np.array(list(g2(list(x.data)))), newG
+    return upd
+
+
 def _c14(ctx, params):
     W, prob, gtol = _setup(ctx, params)
     np = W.np
@@ -390,7 +406,13 @@ def _c14(ctx, params):
     base = _cfg(params, gtol, callback_kind="false")
     if params.get("jac"):
         base["jac"] = None if params["jac"] == "none" else params["jac"]
-    P1 = Run(prob, "P1").execute(dict(base))
+    sw = None
+    if params.get("rewrite_at") is not None:
+        # both runs redefine the objective on the fly (so that the history filter has something to drop)
+        from symx.oracle import UF
+        sw = (params["rewrite_at"], UF("qf", 1), UF("qg", prob.n))
+    P1 = Run(prob, "P1")
+    P1.execute(dict(base, update_fun_def=_switch_upd(np, P1, *sw)) if sw else dict(base))
     if P1.exc is not None:
         return _exc(ctx, P1, info, "P1")
     s1 = snapshot_state(P1.result)
@@ -467,7 +489,8 @@ def _c14(ctx, params):
         ctx.check("C14.restart_twice_same_result", v, info=dict(info, structural=struct))
     elif mode == "logging":
         lg = RecLogger()
-        P2 = Run(prob, "P2").execute(dict(base, iprint=params["iprint"], logger=lg))
+        P2 = Run(prob, "P2")
+        P2.execute(dict(base, iprint=params["iprint"], logger=lg, **(dict(update_fun_def=_switch_upd(np, P2, *sw)) if sw else {})))
         if P2.exc is not None:
             ctx.check("C14.logging_does_not_raise", True, info=dict(info, exc=type(P2.exc).__name__, msg=str(P2.exc)[:200]))
             return dict(cls="exception")
